@@ -2,11 +2,13 @@
 # tools/mutant_matrix.sh : run every seeded change against its own property's check (and the checks listed
 # in seeded/<id>/also.txt); writes build/matrix.txt
 cd /verif
-: > build/matrix.txt
-for d in seeded/*/; do
-  id=$(basename $d); prop=${id%-*}
+PAT=${1:-C*}
+OUTF=${2:-build/matrix.txt}
+: > $OUTF
+for d in seeded/$PAT/; do
+  id=$(basename $d); prop=${id%%-*}
   p=$d/patch.diff; [ -f $d/patch_rebased.diff ] && p=$d/patch_rebased.diff
   also=""; [ -f $d/also.txt ] && also=$(cat $d/also.txt)
   out=$(tools/try_mutant.sh /verif/$p $prop $also 2>&1 | grep '^== ' | tr '\n' ' ')
-  echo "$id: $out" | tee -a build/matrix.txt
+  echo "$id: $out" | tee -a $OUTF
 done
